@@ -251,6 +251,22 @@ pub fn run(tier: Tier) -> i32 {
             }
         }
     }
+    // neighbours that are related to the observed file or degenerate: byte-identical copies under another name (same
+    // directory, nested, sibling directories, three copies), empty / blank / comment-only / pragma-only source files
+    for a in 0..n {
+        let copy = |name: &str| Entry::File { name: name.into(), content: fs[a].1.as_bytes().to_vec() };
+        let raw = |name: &str, c: &str| Entry::File { name: name.into(), content: c.as_bytes().to_vec() };
+        let b = (a + 1) % n;
+        trees.push(vec![fe(a), copy("Copy.sol")]);
+        trees.push(vec![fe(a), Entry::Dir { name: "d1".into(), children: vec![copy("Copy.sol")] }]);
+        trees.push(vec![Entry::Dir { name: "d1".into(), children: vec![fe(a)] }, Entry::Dir { name: "d2".into(), children: vec![copy("Vendored.sol")] }]);
+        trees.push(vec![fe(a), copy("Copy.sol"), Entry::Dir { name: "d1".into(), children: vec![copy("Third.sol"), fe(b)] }]);
+        for (nm, c) in [("Empty.sol", ""), ("Blank.sol", " \n\t\r\n"), ("Comment.sol", "// nothing here\n/* nor here */\n"), ("Pragma.sol", "pragma solidity ^0.8.0;\n")] {
+            trees.push(vec![fe(a), raw(nm, c)]);
+            trees.push(vec![raw(nm, c), fe(a), Entry::Dir { name: "d1".into(), children: vec![fe(b)] }]);
+            trees.push(vec![Entry::Dir { name: "d0".into(), children: vec![raw(nm, c), fe(b)] }, fe(a)]);
+        }
+    }
     use solstat::analyzer::optimizations as opt;
     use solstat::analyzer::qa;
     use solstat::analyzer::vulnerabilities as vul;
